@@ -20,6 +20,7 @@ def run(tier):
     rep.rule('R18.e.2', 'after any fault, a topology Reset leaves every field of the record fresh or provably dead (the entry record is arbitrary, so every post-fault state is covered)', floor=8)
     rep.rule('R18.e.3', 'after such a Reset nothing transmitted and no decision depends on pre-Reset (post-fault) state: behaviour equals a freshly started responder', floor=20)
     rep.rule('R18.d', 'constructors: an allocation failure yields NULL (or a usable automaton without its optional block), never a dereference, never a leak', floor=6)
+    rep.rule('R18.f', 'diagnostics on fault paths: every printf-like call has a literal format whose conversions match its arguments', floor=40)
     res = safety.run_all(kinds=['frame.mtu', 'frame.fallback', 'ctors', 'api'] + ['tick:%d:%d' % (m, e) for m in range(3) for e in range(3)])
     for entry, r in sorted(res.items()):
         rule = 'R18.c' if entry == 'frame.fallback' else 'R18.a'
@@ -57,6 +58,9 @@ def run(tier):
     # analysis of C09 starts from an arbitrary interface record, hence from every state a fault path can leave behind
     from .c09 import recovery
     from .automata_common import load_core
+    from .fmtcheck import check_formats
+    # fault paths are where the warnings are logged: a conversion reading a missing or wrong-typed argument crashes exactly there
+    rep.analysed['printf_like_calls'] = check_formats(rep, load_core('systemd'), 'R18.f')
     rinfo = recovery(rep, load_core('systemd'), 'R18.e')
     rep.analysed.update({'fault_paths_of_parseFrame': nfault, 'entries': sorted(res), 'reset_recovery': rinfo})
     return finish(rep, 'proof',
